@@ -8,6 +8,8 @@ import (
 	"errors"
 	"fmt"
 	"strings"
+	"sync"
+	"sync/atomic"
 	"time"
 
 	"github.com/ipfs/boxo/namesys"
@@ -177,12 +179,6 @@ func chainSets(fullL, maxL int) []chainSpec {
 	return out
 }
 
-type storeB struct {
-	c   chainSpec
-	pub func()
-	mk  func(cache int) namesys.NameSystem
-}
-
 func buildB(c chainSpec) (mk func(cache int) namesys.NameSystem, err error) {
 	dst, rt := newStore()
 	pub := newNS(rt, dst, 0, nil)
@@ -306,9 +302,17 @@ func partB(r *eng.Run) {
 	}
 	r.Set("b_record_tables_per_length", perLen)
 	r.Sample(map[string]any{"part": "b", "chain": sets[len(sets)/2], "describe": sets[len(sets)/2].describe()})
+	var once sync.Once
+	var skipped atomic.Int64
+	defer func() {
+		if n := skipped.Load(); n > 0 {
+			r.Set("b_record_tables_skipped_budget", n)
+		}
+	}()
 	eng.ParFor(len(sets), func(i int) {
 		if r.Expired() {
-			r.Incomplete("budget expired in part (b)")
+			once.Do(func() { r.Incomplete("budget expired in part (b): the remaining (longest) record tables were not run") })
+			skipped.Add(1)
 			return
 		}
 		c := sets[i]
